@@ -296,3 +296,77 @@ def _sig_match(pattern, signature):
 
 def rng(*salt):
     return random.Random("%d|%s" % (seed(), "|".join(str(s) for s in salt)))
+
+
+# ------------------------------------------------------------------------------------------------
+# resilient unit runner
+
+def run_units(units, env=None, per=100, tag="units", prelude=None, timeout_ms=30000, case_opts=None,
+              variant="plain", engine=None, max_rounds=14):
+    """Evaluate each unit (a source text) as its own top-level evaluation; units of a batch share an
+    engine.  After a panic, a process death or a timeout the remaining units of the batch are re-run
+    in a new batch, so one bad unit costs one unit.  Returns outcomes aligned with `units`:
+      {"ok":True,"vals":[..],"out":str} | {"ok":False,"kind":..,"err":..,"panic":(loc,msg)?}
+      | {"died": "signal:11"|"timeout"|.., "stderr": str}"""
+    out = [None] * len(units)
+    pending = list(range(len(units)))
+    rounds = 0
+    args = []
+    if engine:
+        args += ["--engine", engine]
+    while pending and rounds < max_rounds:
+        rounds += 1
+        cases = []
+        groups = {}
+        for b in range(0, len(pending), per):
+            idxs = pending[b:b + per]
+            cid = "b%d_%d" % (rounds, b)
+            groups[cid] = idxs
+            c = {"id": cid, "timeout_ms": timeout_ms,
+                 "units": ([prelude] if prelude else []) + [units[k] for k in idxs]}
+            if case_opts:
+                c.update(case_opts)
+            cases.append(c)
+        results, meta = run_cases(cases, env=env, tag=tag, args=args, variant=variant)
+        nxt = []
+        off = 1 if prelude else 0
+        for cid, idxs in groups.items():
+            res = results.get(cid)
+            us = (res["units"] if res else [])[off:]
+            stop = False
+            for pos, k in enumerate(idxs):
+                if stop:
+                    nxt.append(k)
+                    continue
+                if pos >= len(us):
+                    if res is not None and res["status"] != "ok" and pos == len(us):
+                        out[k] = {"died": res["status"], "stderr": res.get("stderr_tail", ""),
+                                  "out": res.get("out_tail", "")}
+                        stop = True
+                    else:
+                        nxt.append(k)
+                    continue
+                u = us[pos]
+                if u.get("ok"):
+                    out[k] = {"ok": True, "vals": u.get("vals", []), "out": u.get("out", "")}
+                else:
+                    o = {"ok": False, "kind": u.get("kind"), "err": u.get("err", ""), "out": u.get("out", "")}
+                    if u.get("panics"):
+                        o["panic"] = (u["panics"][0][0], u["panics"][0][1])
+                        stop = True  # the engine is not trusted after a panic
+                    out[k] = o
+        if len(nxt) == len(pending) and per == 1:
+            break
+        pending = nxt
+        per = max(1, per // 2)
+    return out
+
+
+def panic_sig(panic):
+    """Stable signature of a panic: file (no line number) + message with numbers/quoted parts erased."""
+    import re
+    loc, msg = panic
+    f = loc.rsplit(":", 1)[0]
+    m = re.sub(r"\d+", "N", msg)
+    m = re.sub(r"`[^`]*`|\"[^\"]*\"|'[^']*'", "_", m)
+    return "%s: %s" % (f, m[:70])
